@@ -213,13 +213,21 @@ class LifecycleRun:
         if cur is None or not self.attributable(cur):
             return
         st = self.parse(cur)
-        r = _call(self.cc.enable, cur.encode("utf-8") if op.get("as_bytes") else cur)
-        if r[0] == "ok" and isinstance(r[1], bytes):
-            r = ("ok", r[1].decode("utf-8"))  # (text or bytes out is not fixed by the statement: a normal record given as bytes comes back as given)
+        arg = cur.encode("utf-8") if op.get("as_bytes") else cur
+        r = _call(self.cc.enable, arg)
         self.shapes.add("enable:" + st[0] + ("+embedded" if st[0] == "disabled" and st[1] else ""))
         if st[0] == "enabled":
-            ctx.check(r == ("ok", cur), "C18", "enable-changes-normal-hash", f"enable({cur!r}) -> {r[:2]}")
-        elif st[1]:
+            # "returns it unchanged": the very value that was handed over, bytes as bytes
+            ctx.check(r[0] == "ok" and type(r[1]) is type(arg) and r[1] == arg, "C18", "enable-changes-normal-hash", f"enable({arg!r}) -> {r[:2]}")
+            if op.get("as_bytes") and self.names[-1] in ("plaintext", "ldap_plaintext"):
+                # ... also a record that is not even text (a legacy plaintext record a driver hands back as latin-1 bytes)
+                odd = b"caf\xe9-" + arg[-12:]
+                r3 = _call(self.cc.enable, odd)
+                ctx.check(r3[0] == "ok" and r3[1] == odd, "C18", "enable-changes-normal-hash", f"enable({odd!r}) -> {r3[:2]}")
+            return
+        if r[0] == "ok" and isinstance(r[1], bytes):
+            r = ("ok", r[1].decode("utf-8"))  # (an original restored from a bytes record: text or bytes out is not fixed by the statement)
+        if st[1]:
             ctx.check(r == ("ok", st[1]), "C18", "enable-does-not-restore-original", f"enable({cur!r}) -> {r[:2]}, expected {st[1]!r}",
                       scheme=self.disabled)
             rec["cur"] = st[1]
@@ -311,6 +319,30 @@ class LifecycleRun:
             nd = self.cc.default_scheme()
             if nd != self.default:
                 self.countable = False  # the counting subclass sits on the old default scheme only
+
+    def op_neighbour(self, op, rec):
+        """another part of the application builds ITS context / handler variant with another marker: both keep their own"""
+        from passlib.context import CryptContext
+
+        ctx = self.ctx
+        mk = op["marker"]
+        if op.get("via") == "using":
+            r = _call(lambda: self.ph.unix_disabled.using(marker=mk).disable("$1$abcdefgh$" + "x" * 22))
+        else:
+            r = _call(lambda: CryptContext(["md5_crypt", "unix_disabled"], unix_disabled__marker=mk).disable("$1$abcdefgh$" + "x" * 22))
+        ctx.fault("neighbour_context")
+        ctx.check(r == ("ok", mk + "$1$abcdefgh$" + "x" * 22), "C18", "disabled-record-shape",
+                  lambda: f"a second context with marker {mk!r}: disable() -> {r[:2]}", scheme="unix_disabled")
+        if self.disabled == "unix_disabled":
+            # ... and this context's next disable / enable still go by its own marker
+            h = "$1$abcdefgh$" + "y" * 22
+            if self.attributable(h) and self.parse(h)[0] == "enabled":
+                d = _call(self.cc.disable, h)
+                ctx.check(d == ("ok", self.marker + h), "C18", "disabled-record-shape",
+                          lambda: f"after a neighbour context with marker {mk!r}: disable({h!r}) -> {d[:2]}, own marker {self.marker!r}", scheme=self.disabled)
+                if d[0] == "ok":
+                    e = _call(self.cc.enable, d[1])
+                    ctx.check(e == ("ok", h), "C18", "enable-does-not-restore-original", f"enable({d[1]!r}) -> {e[:2]}", scheme=self.disabled)
 
     def op_add_user_scheme(self, op, rec):
         """reconfiguration on the live object: a scheme that takes a context keyword joins; from now on every login carries it"""
